@@ -804,6 +804,8 @@ func TestVerif_C09(t *testing.T) {
 	res.Floor("tls13_handshakes", 1)
 	res.Floor("multitenant_responses_checked", 100)
 	res.Floor("multitenant_streams_checked", 50)
+	res.Floor("revoke_after_use_served_before_revocation", 20)
+	res.Floor("revoke_after_use_presentations_after_revocation", 60)
 	res.Floor("concurrent_genuine_served", 1)
 	res.Floor("concurrent_nongenuine_handshakes", 20)
 
@@ -957,6 +959,7 @@ func TestVerif_C09(t *testing.T) {
 	// ---- concurrent phase: overlapping lookups on one gateway instance
 	vC09Concurrent(t, res, reg, vs.Scale(150, 3000))
 	vC09ConcurrentTenants(t, res, reg, vs.Scale(200, 4000))
+	vC09RevokeAfterUse(t, res, reg, vs.Scale(60, 1500))
 
 	res.Count("cert_queries_with_answer_from_keeper", int(atomic.LoadInt64(&reg.answered)))
 	res.Extra("cert_queries_total", atomic.LoadInt64(&reg.queries))
